@@ -6,6 +6,7 @@
 package main
 
 import (
+	"math"
 	"encoding/json"
 	"fmt"
 	"os"
@@ -546,6 +547,9 @@ func directed(r *rep.Report) {
 			[]map[string]interface{}{P("a", "s1")}},
 		{"optional-variable", []op{{Op: "addRule", Loc: "child", Id: "r1", When: P("a", "s1", "b", "??y")}},
 			[]map[string]interface{}{P("a", "s1"), P("a", "s1", "b", "here")}},
+		// JSON -0 (and -0.0) decodes to a negative zero, which equals 0 for the matcher
+		{"negative-zero", []op{{Op: "addRule", Loc: "child", Id: "r1", When: P("n", 0.0)}, {Op: "addRule", Loc: "child", Id: "r2", When: P("n", math.Copysign(0, -1))}, {Op: "addRule", Loc: "child", Id: "r3", When: P("m", []interface{}{math.Copysign(0, -1), 1.0})}},
+			[]map[string]interface{}{P("n", math.Copysign(0, -1)), P("n", 0.0), P("m", []interface{}{0.0, 1.0, 2.0})}},
 		{"mixed-array", []op{{Op: "addRule", Loc: "child", Id: "r1", When: P("b", []interface{}{"", "?x", "s2"})}},
 			[]map[string]interface{}{P("b", []interface{}{"", "s2", "y"})}},
 	}
